@@ -230,7 +230,8 @@ fn tokenize_tag(input: &str, bytepos: &mut usize) -> Result<TokenType, String> {
     let startpos = *bytepos;
 
     *bytepos += 1;
-    let mut c = input_bytes[*bytepos];
+    // the opening quote may be the last character of the input
+    let mut c = 0u8;
     while *bytepos < datalen {
         c = input_bytes[*bytepos];
         if c == b'"' {
